@@ -411,7 +411,7 @@ ModelPtr Model::clone() const
         generateEquivalenceMap(c, map, indexStack);
         indexStack.pop_back();
     }
-    applyEquivalenceMapToModel(map, m);
+    applyEquivalenceMapToModel(map, m, shared_from_this());
 
     return m;
 }
